@@ -77,7 +77,8 @@ def ChainOK (ch : Chain) : Prop :=
     Below k B → BelowP k P → closeGE (k + 1) s.state = blk :: B → blk.cur.indent = k →
     blk.cur.path = fullName P ++ nms pfx → blk.cur.ctype = .case → popGE k s.parents = P →
     ∃ s', run s (ch.render k pfx fe) =
-        .ok (s', if falseCase B || anyTrue blk then [] else ch.sem (cleanName (fullName P) ++ pfx)) ∧
+        .ok (s', (if falseCase B || anyTrue blk then [] else ch.sem (cleanName (fullName P) ++ pfx)) ++
+                 (if falseCase B then [] else ch.tail (cleanName (fullName P) ++ pfx))) ∧
       closeGE k s'.state = B ∧ popGE k s'.parents = P ∧
       (∀ q, (fe = true ∨ pfx ≠ q) → closeFor k (fullName P ++ nms q) s'.state = (B, false))
 
@@ -223,31 +224,81 @@ theorem items_cons_ok (i : Item) (rest : Items) (ihi : ItemOK i) (ihr : ItemsOK 
   rw [run_append_ok hr1 hr2]
   by_cases hf : falseCase B = true <;> simp [hf]
 
-theorem chain_fin_ok (ee : Bool) : ChainOK (.fin ee) := by
-  intro k s B P pfx blk fe hB hP h1 hi hpath _ h2
-  obtain ⟨s', hr, hs, hp, hpost⟩ := end_line k pfx (ee || fe) s B P blk hB hP h1 hi hpath h2
-  refine ⟨s', ?_, hs, hp, fun q hq => hpost q ?_⟩
-  · simp only [Chain.render, hr, Chain.sem]
+/-- An explicit `@end` followed by lines indented deeper than it. -/
+theorem end_trailer {tr : Items} (ih : ItemsOK tr) (k te : Nat) (pfx : List String) (s : St) (B : List Branch)
+    (P : List (Nat × List Comp)) (blk : Branch)
+    (hB : Below k B) (hP : BelowP k P) (h1 : closeGE (k + 1) s.state = blk :: B)
+    (hi : blk.cur.indent = k) (hpath : blk.cur.path = fullName P ++ nms pfx) (h2 : popGE k s.parents = P) :
+    ∃ s', run s (endLine k pfx true ++ tr.render (k + 1 + te)) =
+        .ok (s', if falseCase B then [] else tr.sem (cleanName (fullName P) ++ pfx)) ∧
+      closeGE k s'.state = B ∧ popGE k s'.parents = P ∧
+      (∀ q, closeFor k (fullName P ++ nms q) s'.state = (B, false)) := by
+  have hs := step_end h1 hi hpath h2
+  have hk : k + 1 ≤ k + 1 + te := by omega
+  have hb1 : Below (k + 1) B := hB.mono (Nat.le_succ k)
+  have hp1 : BelowP (k + 1) ((k, nms pfx ++ [Comp.cs (s.numCases + 1)]) :: P) := belowP_cons (by simp)
+  obtain ⟨s2, hr, hst, hpp⟩ := ih (k + 1 + te)
+    (St.mk ((k, nms pfx ++ [.cs (s.numCases + 1)]) :: P) B (s.numCases + 1) s.numBranches) B
+    ((k, nms pfx ++ [.cs (s.numCases + 1)]) :: P) (hb1.mono hk) (hp1.mono hk)
+    (closeGE_of_below (hb1.mono hk)) (popGE_of_below (hp1.mono hk))
+    (fun q _ => closeFor_new (closeGE_of_below (hb1.mono (by omega))) (hb1.mono hk))
+  refine ⟨s2, ?_, closeGE_mono hst (by omega) hB, ?_, fun q => closeFor_new (closeGE_mono hst hk hb1) hB⟩
+  · have h0 : run s (endLine k pfx true) =
+        .ok (St.mk ((k, nms pfx ++ [.cs (s.numCases + 1)]) :: P) B (s.numCases + 1) s.numBranches, []) := by
+      simp [endLine, run, hs]
+    rw [run_append_ok h0 hr, cleanName_fullName_cs]
     simp
-  · rcases hq with h | h
-    · left; simp [h]
-    · right; exact h
+  · have : popGE k s2.parents = popGE k ((k, nms pfx ++ [Comp.cs (s.numCases + 1)]) :: P) := by
+      rw [← hpp, popGE_popGE_le (by omega)]
+    rw [this]
+    simp only [popGE, Nat.le_refl, if_true]
+    exact popGE_of_below hP
 
-theorem chain_els_ok (e : Nat) (body : Items) (ee : Bool) (ih : ItemsOK body) : ChainOK (.els e body ee) := by
+theorem chain_fin_ok (ee : Bool) (te : Nat) (tr : Items) (iht : ItemsOK tr) : ChainOK (.fin ee te tr) := by
+  intro k s B P pfx blk fe hB hP h1 hi hpath _ h2
+  cases ee with
+  | false =>
+    obtain ⟨s', hr, hs, hp, hpost⟩ := end_line k pfx (false || fe) s B P blk hB hP h1 hi hpath h2
+    simp only [Bool.false_or] at hr
+    refine ⟨s', ?_, hs, hp, fun q hq => hpost q ?_⟩
+    · simp only [Chain.render, Chain.sem, Chain.tail]
+      simp [hr]
+    · rcases hq with h | h
+      · left; simp [h]
+      · right; exact h
+  | true =>
+    obtain ⟨s', hr, hs, hp, hpost⟩ := end_trailer iht k te pfx s B P blk hB hP h1 hi hpath h2
+    refine ⟨s', ?_, hs, hp, fun q _ => hpost q⟩
+    simp only [Chain.render, Chain.sem, Chain.tail, Bool.true_or, if_true]
+    rw [hr]
+    simp
+
+theorem chain_els_ok (e : Nat) (body : Items) (ee : Bool) (te : Nat) (tr : Items) (ih : ItemsOK body)
+    (iht : ItemsOK tr) : ChainOK (.els e body ee te tr) := by
   intro k s B P pfx blk fe hB hP h1 hi hpath ht h2
   let blk' : Branch :=
     { blk with cur := ⟨fullName P ++ nms pfx, k, true, .els, s.numCases + 1⟩, earlier := blk.cur :: blk.earlier }
   let s1 : St := St.mk ((k, nms pfx ++ [.cs (s.numCases + 1)]) :: P) (blk' :: B) (s.numCases + 1) s.numBranches
   have hs : step s ⟨k, pfx, .els⟩ = .ok (s1, []) := step_switch_else h1 hi hpath ht h2
   obtain ⟨s2, hr2, hs2, hp2⟩ := clause_body ih k e (s.numCases + 1) pfx s1 B P blk' hP rfl rfl rfl
-  obtain ⟨s3, hr3, hs3, hp3, hpost⟩ := end_line k pfx (ee || fe) s2 B P blk' hB hP hs2 rfl rfl hp2
-  refine ⟨s3, ?_, hs3, hp3, fun q hq => hpost q ?_⟩
-  · simp only [Chain.render, Chain.sem]
+  cases ee with
+  | false =>
+    obtain ⟨s3, hr3, hs3, hp3, hpost⟩ := end_line k pfx (false || fe) s2 B P blk' hB hP hs2 rfl rfl hp2
+    refine ⟨s3, ?_, hs3, hp3, fun q hq => hpost q ?_⟩
+    · simp only [Chain.render, Chain.sem, Chain.tail]
+      have hr3' : run s2 (endLine k pfx (false || fe) ++ if false = true then tr.render (k + 1 + te) else []) = .ok (s3, []) := by
+        simpa using hr3
+      rw [run_cons_ok hs (run_append_ok hr2 hr3'), falseBranch_switch]
+      simp
+    · rcases hq with h | h
+      · left; simp [h]
+      · right; exact h
+  | true =>
+    obtain ⟨s3, hr3, hs3, hp3, hpost⟩ := end_trailer iht k te pfx s2 B P blk' hB hP hs2 rfl rfl hp2
+    refine ⟨s3, ?_, hs3, hp3, fun q _ => hpost q⟩
+    simp only [Chain.render, Chain.sem, Chain.tail, Bool.true_or, if_true]
     rw [run_cons_ok hs (run_append_ok hr2 hr3), falseBranch_switch]
     simp
-  · rcases hq with h | h
-    · left; simp [h]
-    · right; exact h
 
 theorem chain_case_ok (c : Bool) (e : Nat) (body : Items) (more : Chain) (ih : ItemsOK body)
     (ihm : ChainOK more) : ChainOK (.case c e body more) := by
@@ -260,7 +311,7 @@ theorem chain_case_ok (c : Bool) (e : Nat) (body : Items) (more : Chain) (ih : I
   obtain ⟨s2, hr2, hs2, hp2⟩ := clause_body ih k e (s.numCases + 1) pfx s1 B P blk' hP rfl rfl rfl
   obtain ⟨s3, hr3, hs3, hp3, hpost⟩ := ihm k s2 B P pfx blk' fe hB hP hs2 rfl rfl rfl hp2
   refine ⟨s3, ?_, hs3, hp3, hpost⟩
-  simp only [Chain.render, Chain.sem]
+  simp only [Chain.render, Chain.sem, Chain.tail]
   rw [run_cons_ok hs (run_append_ok hr2 hr3), falseBranch_switch, anyTrue_switch]
   cases c <;> cases falseCase B <;> cases anyTrue blk <;> simp
 
@@ -295,8 +346,8 @@ mutual
     | .cons i rest => items_cons_ok i rest (item_ok i) (items_ok rest)
   theorem chain_ok : (ch : Chain) → ChainOK ch
     | .case c e body more => chain_case_ok c e body more (items_ok body) (chain_ok more)
-    | .els e body ee => chain_els_ok e body ee (items_ok body)
-    | .fin ee => chain_fin_ok ee
+    | .els e body ee te tr => chain_els_ok e body ee te tr (items_ok body) (items_ok tr)
+    | .fin ee te tr => chain_fin_ok ee te tr (items_ok tr)
 end
 
 /-! ## sem of concatenated programs -/
@@ -346,17 +397,26 @@ mutual
       rw [Item.occ_sem i pre sel, Items.occ_sem rest pre sel]
       cases h : sel.all id <;> simp
   theorem Chain.occ_sem : (ch : Chain) → (pre : List String) → (sel : List Bool) → (done : Bool) →
-      selectedOnly (ch.occ pre sel done) = if sel.all id && !done then ch.sem pre else []
+      selectedOnly (ch.occ pre sel done) =
+        (if sel.all id && !done then ch.sem pre else []) ++ (if sel.all id then ch.tail pre else [])
     | .case c e body more, pre, sel, done => by
-      simp only [Chain.occ, Chain.sem, selectedOnly_append]
+      simp only [Chain.occ, Chain.sem, Chain.tail, selectedOnly_append]
       rw [Items.occ_sem body pre _, Chain.occ_sem more pre sel _]
       cases c <;> cases done <;> cases h : sel.all id <;> simp [h]
-    | .els e body ee, pre, sel, done => by
-      simp only [Chain.occ, Chain.sem]
-      rw [Items.occ_sem body pre _]
-      cases done <;> cases h : sel.all id <;> simp [h]
-    | .fin ee, pre, sel, done => by
-      simp [Chain.occ, Chain.sem, selectedOnly]
+    | .els e body ee te tr, pre, sel, done => by
+      cases ee
+      · simp only [Chain.occ, Chain.sem, Chain.tail, selectedOnly_append]
+        rw [Items.occ_sem body pre _]
+        cases done <;> cases h : sel.all id <;> simp [h, selectedOnly]
+      · simp only [Chain.occ, Chain.sem, Chain.tail, selectedOnly_append, if_true]
+        rw [Items.occ_sem body pre _, Items.occ_sem tr pre sel]
+        cases done <;> cases h : sel.all id <;> simp [h]
+    | .fin ee te tr, pre, sel, done => by
+      cases ee
+      · simp [Chain.occ, Chain.sem, Chain.tail, selectedOnly]
+      · simp only [Chain.occ, Chain.sem, Chain.tail, if_true]
+        rw [Items.occ_sem tr pre sel]
+        cases h : sel.all id <;> simp [h]
 end
 
 end SciVerif.C15
